@@ -130,7 +130,9 @@ class PGPSignature(Armorable, ParentRef, PGPObject):
         """
         if 'SignatureExpirationTime' in self._signature.subpackets:
             expd = next(iter(self._signature.subpackets['SignatureExpirationTime'])).expires
-            return self.created + expd
+            # a signature expiration time of zero means the signature never expires (RFC 4880, 5.2.3.10)
+            if expd:
+                return self.created + expd
         return None
 
     @property
@@ -1416,7 +1418,8 @@ class PGPKey(Armorable, ParentRef, PGPObject):
             if sig.key_expiration is not None:
                 expires = sig.key_expiration
 
-        if expires is not None:
+        # a key expiration time of zero means the key never expires (RFC 4880, 5.2.3.6)
+        if expires:
             return self.created + expires
 
         return None
